@@ -398,6 +398,9 @@ func runDecChunk(args []string) string {
 //   conc enc  <N> <procs> <strict> <value tokens>
 //   conc dec  <N> <procs> <pd> <su> <hex>
 //   conc read <N> <procs> <pd> <su> <hex>
+// concPhase: 0 while the sequential reference results are computed, 1 during the concurrent phase
+var concPhase int
+
 func runConc(args []string) string {
 	mode := args[0]
 	n, _ := strconv.Atoi(args[1])
@@ -435,10 +438,15 @@ func runConc(args []string) string {
 		}
 	case "dec":
 		data := unhex(args[5])
-		cfg := &ogorek.DecoderConfig{PyDict: args[3] == "1", StrictUnicode: args[4] == "1"}
+		// ONE configuration object shared by all goroutines (a config is input to the constructor, callers
+		// share it freely); the sequential reference run uses its own copy, so the shared one is first
+		// touched in the concurrent phase
+		cfgs := [2]*ogorek.DecoderConfig{
+			{PyDict: args[3] == "1", StrictUnicode: args[4] == "1"},
+			{PyDict: args[3] == "1", StrictUnicode: args[4] == "1"}}
 		for i := 0; i < n; i++ {
 			work[i] = func() string {
-				return showDecRes(decodeStream(strings.NewReader(data), cfg, len(data)+3))
+				return showDecRes(decodeStream(strings.NewReader(data), cfgs[concPhase], len(data)+3))
 			}
 		}
 	case "read":
@@ -484,9 +492,11 @@ func runConc(args []string) string {
 		return "DRIVER-ERROR bad conc mode"
 	}
 	want := make([]string, n)
+	concPhase = 0
 	for i := range work {
 		want[i] = work[i]()
 	}
+	concPhase = 1 // before the goroutines start (they wait for close(start))
 	got := make([][]string, n)
 	var wg sync.WaitGroup
 	start := make(chan struct{})
